@@ -7,12 +7,14 @@ LEAN_TARGETS = ["CaresProps.C17", "driver_proto"]
 THEOREMS = [
     "Cares.C17.timeval_is_set_ok",
     "Cares.C17.addr_equal_unspec_ok",
+    "Cares.C17.validate_learns_only_in_use",
     "Cares.C17.cookie_constants",
     "Cares.C17.never_on_tcp",
     "Cares.C17.never_on_tcp_step",
     "Cares.C17.apply_stable",
     "Cares.C17.client_cookie_stable",
     "Cares.C17.client_cookie_changes_only_for_cause",
+    "Cares.C17.client_cookie_is_fresh",
     "Cares.C17.server_cookie_saved",
     "Cares.C17.echo_latest_server_cookie",
     "Cares.C17.supported_requires_cookie",
